@@ -101,10 +101,21 @@ extern "C" {
 		}
 		__real_exit(code);
 	}
+	static void garbage_fill(void * p, size_t n) {
+		// deterministic for a given history (replay reproduces it), different for a different history
+		uint64_t x = 0x9e3779b97f4a7c15ULL * (g_sim.mallocs + 1) + 0x6a09e667f3bcc909ULL;
+		unsigned char * b = (unsigned char *)p;
+		if (n > (1u << 20)) n = 1u << 20;
+		size_t i = 0;
+		for (; i + 8 <= n; i += 8) { uint64_t z = splitmix64(x); memcpy(b + i, &z, 8); }
+		if (i < n) { uint64_t z = splitmix64(x); memcpy(b + i, &z, n - i); }
+		g_sim.garbage_fills++;
+	}
 	void * __wrap_malloc(size_t n) {
 		void * p = __real_malloc(n);
 		if (g_sim.active && g_sim.in_lib > 0) {
 			g_sim.mallocs++;
+			if (g_sim.malloc_fill && p && n) garbage_fill(p, n);
 			if (g_sim.track_blocks && g_sim.blocks && p) {
 				uintptr_t ra = (uintptr_t)__builtin_return_address(0);
 				int tag = (ra >= g_sim.range_lo && ra < g_sim.range_hi) ? g_sim.range_tag : g_sim.alloc_tag;
@@ -139,10 +150,12 @@ extern "C" {
 			// buggify: the block always moves, so any pointer kept across a growth goes stale
 			size_t old = __sanitizer_get_allocated_size(p);
 			q = __real_malloc(n);
-			if (q) { memcpy(q, p, old < n ? old : n); __real_free(p); }
+			if (q) { if (g_sim.malloc_fill && n > old) { g_sim.mallocs++; garbage_fill((char *)q + old, n - old); } memcpy(q, p, old < n ? old : n); __real_free(p); }
 			g_sim.fired["realloc_moved_forced"]++;
 		} else {
+			size_t old = p ? __sanitizer_get_allocated_size(p) : 0;
 			q = __real_realloc(p, n);
+			if (g_sim.malloc_fill && q && n > old) { g_sim.mallocs++; garbage_fill((char *)q + old, n - old); }
 		}
 		if (q != p) g_sim.realloc_moved++;
 		if (g_sim.track_blocks && g_sim.blocks) {
